@@ -195,7 +195,7 @@ def check_case(ctx, case):
                     continue
                 wp = f"{what} -> {S.show(rs)[:400]} at {S.show_point(p)}"
                 # (ii) exact value of R vs the true partial
-                rx0 = R.EXACT.evaluate(rs, p)
+                rx0 = R.EXACT_WIDE_ALL.evaluate(rs, p)
                 if rx0.status == "undef":
                     ctx.violation("derivative_expression_undefined_on_domain",
                                   f"{wp}: the original is defined here but the returned expression is not ({rx0.undef[0]})")
